@@ -145,6 +145,12 @@ def handler_coverage_corpus():
     add("map-item-error", chain(("M", Map(it)), Z), workers={"f1": {"1": ERR(), "*": [["echo"]]}}, input=[1, 2])
     add("map-legacy-iterator", chain(("M", Map(chain(("I", Pass())), legacy=True, Parameters={"v.$": "$$.Map.Item.Value"})), Z), input=[7])
     add("nested-par-in-map", chain(("M", Map(chain(("P", Parallel([chain(("A", Pass(Result=1))), chain(("B", Pass(Result=2)))]))))), Z), input=[1, 2])
+    # a fan-out state that completes at once (no items / no branches) as the last or a middle state of a branch or an iteration
+    emap = lambda **kw: Map(chain(("I", Pass())), ItemsPath="$.none", **kw)
+    for nm, inner in (("emptymap-end", chain(("A1", emap()))), ("emptymap-next", chain(("A1", emap()), ("A2", Pass()))),
+                      ("emptypar-end", chain(("A1", Parallel([])))), ("emptypar-next", chain(("A1", Parallel([])), ("A2", Pass())))):
+        add("nested-%s-in-parallel" % nm, chain(("P", Parallel([inner, chain(("B1", Pass(Result=2)))])), Z), input={"none": []})
+        add("nested-%s-in-map" % nm, chain(("M", Map(inner, ItemsPath="$.rows")), Z), input={"rows": [{"none": []}, {"none": []}]})
     add("unknown-state", {"StartAt": "A", "States": {"A": {"Type": "Pass", "Next": "Nope"}}})
     add("illegal-type", {"StartAt": "A", "States": {"A": {"Type": "Bogus", "End": True}}})
     add("express-pass", chain(("A", Pass(Result=1, ResultPath="$.a")), Z), typ="EXPRESS")
